@@ -9,9 +9,9 @@ cd /verif
 declare -A MAP=(
  [c2e60a6]="C18" [637ce07]="C18" [46a78d0]="C07 C09" [a13c765]="C07" [cc8f94a]="C12" [deb6a10]="C14"
  [0ada5d5]="C14" [a048caa]="C10 C07" [d1deb8f]="C15" [c89a82d]="C15" [d734553]="C16"
- [b193a23]="C04" [3c30c17]="C02" [53bd367]="C13" [34a35cd]="C13" [2a5ce6c]="C06" [818c5cb]="C12 C11" [d7f75ca]="C05" [4e2205c]="C19" [98daed6]="C02"
+ [b193a23]="C04" [3c30c17]="C02" [53bd367]="C13" [34a35cd]="C13" [2a5ce6c]="C06" [818c5cb]="C12 C11" [d7f75ca]="C05" [4e2205c]="C19" [98daed6]="C02" [611abab]="C09"
 )
-ORDER="${@:-c2e60a6 637ce07 46a78d0 a13c765 cc8f94a deb6a10 0ada5d5 a048caa d1deb8f c89a82d d734553 b193a23 3c30c17 53bd367 34a35cd 2a5ce6c 818c5cb d7f75ca 4e2205c 98daed6}"
+ORDER="${@:-c2e60a6 637ce07 46a78d0 a13c765 cc8f94a deb6a10 0ada5d5 a048caa d1deb8f c89a82d d734553 b193a23 3c30c17 53bd367 34a35cd 2a5ce6c 818c5cb d7f75ca 4e2205c 98daed6 611abab}"
 OUT=/verif/selftest/reverts.log
 for c in $ORDER; do
   if ! git -C /repo diff --quiet; then echo "repo dirty, abort" | tee -a $OUT; exit 2; fi
